@@ -170,7 +170,7 @@ def run(R: vlib.Run):
         "subject); for .fft/.inf the count travels in the .inf and must read back as the header handed to to_fft declared it",
     ]
     R.prove("Props/C04.v")
-    R.need(["Model/C04_Writer.vo"])
+    R.need(["Model/C04_Writer.vo", "Model/C04_Multi.vo"])
 
     rng = R.rng
     quick = R.tier == "quick"
@@ -183,7 +183,7 @@ def run(R: vlib.Run):
         fired.add(key)
         R.fail(key, what, case)
 
-    corr_w, corr_f, corr_s = [], [], []       # correspondence cases
+    corr_w, corr_f, corr_s, corr_v = [], [], [], []       # correspondence cases
     try:
         # ---------------------------------------------------------------------------------------------
         # 1. prep_outfile + cwrite + FilReader
@@ -236,8 +236,8 @@ def run(R: vlib.Run):
                                 w.close()
                         except Exception as e:  # noqa: BLE001
                             refused = type(e).__name__
-                        if len(vals) <= 48 and kind == "int" and not split:
-                            corr_f.append((nbits, nchans, dt, vals, path, refused))
+                        if len(vals) <= 48 and kind == "int":        # one call or two (model: write_fil_many, C04_calls_are_one_call)
+                            corr_f.append((nbits, nchans, dt, vals, path, refused, split * nchans, layout == "flat" or nbits >= 8))
                         if refused is not None:
                             if dt == FILE_DT[nbits]:
                                 fail("cwrite-refused-own-type", f"cwrite raised {refused} for an array of the file's own sample type", case)
@@ -312,6 +312,36 @@ def run(R: vlib.Run):
                         fail("cwrite-width", "data written at a sample width other than the declared depth (values not representable at the depth)",
                              {"path": "FileWriter.cwrite", "dtype": dt, "nbits": nbits, "n": n, "values": small(vals), "data_bytes": len(out),
                               "expected_bytes": n * nbits // 8})
+                    # the same call on a strided view (every step-th item of a longer buffer, from an offset) and on a read-only array:
+                    # model cwrite_view with the regenerated gen_cw_copies_noncontig (C04_layout_verdict)
+                    if rep < 2 and np.dtype(dt).kind != "f":
+                        for writeable, step in ((True, rng.choice([2, 3])), (False, 1)):
+                            off = rng.randint(0, 2)
+                            buf = np.array([rng.randint(0, 200) for _ in range(off + step * n + 1)]).astype(dt)
+                            buf[off:off + step * n:step] = vals
+                            view = buf[off:off + step * n:step]
+                            view.setflags(write=writeable)
+                            try:
+                                with FileWriter(path, mode="w", nbits=nbits) as w:
+                                    w.cwrite(view)
+                                vout = list(open(path, "rb").read())
+                            except Exception:  # noqa: BLE001
+                                vout = None
+                            R.case(("cwrite-view", dt, nbits, buf.tobytes(), off, step, writeable), regime="cwrite-bytes")
+                            corr_v.append((nbits, dt, buf, off, step, n, writeable, vout))
+                # a call that does NOT hand over a whole number of bytes at a packed depth (outside the property's quantifier; the model
+                # says what pack does: size // bitfact bytes, C04_packed_call_length)
+                if nbits < 8 and dt == "uint8":
+                    for n_un in (1, unit + 1, 2 * unit + rng.randint(1, unit - 1)) if unit > 1 else ():
+                        vals = values_for(rng, dt, nbits, n_un, "int")
+                        try:
+                            with FileWriter(path, mode="w", nbits=nbits) as w:
+                                w.cwrite(vals)
+                            out = list(open(path, "rb").read())
+                        except Exception:  # noqa: BLE001
+                            out = None
+                        R.case(("cwrite-unaligned", nbits, vals.tobytes()), regime="cwrite-bytes")
+                        corr_w.append((nbits, dt, vals, out))
             # float values that are NOT representable at the depth (negative, fractional, beyond the maximum, NaN, inf): what is stored is
             # unspecified, the width is not (oracle only: the conversion float -> unsigned of such values is outside the model)
             for dt in ("float32", "float64"):
@@ -702,7 +732,7 @@ def run(R: vlib.Run):
         # correspondence: the model under vm_compute vs the implementation
         # ---------------------------------------------------------------------------------------------
         head = ["From Coq Require Import ZArith List Bool.",
-                "Require Import SPP.Base.Rt SPP.Gen.C04Io SPP.Model.Stream SPP.Model.C04_Writer.",
+                "Require Import SPP.Base.Rt SPP.Gen.C04Io SPP.Model.Stream SPP.Model.C04_Writer SPP.Model.C04_Multi.",
                 "Import ListNotations.", "Open Scope Z_scope.",
                 "Definition oeqb (a b : option (list Z)) : bool := match a, b with Some x, Some y => list_eqb x y | None, None => true | _, _ => false end.",
                 "Definition bad {A} (ok : A -> bool) (cases : list A) := map fst (filter (fun p => negb (ok (snd p))) (combine (seq 0 (length cases)) cases))."]
@@ -720,10 +750,10 @@ def run(R: vlib.Run):
         # (a) status: which branch of the verdicts the regenerated configuration takes
         rc, out = vlib.coq_run("c04_status", "\n".join(head + [
             "Eval vm_compute in (sound_cfg gen_cfg, map sound_fmt series_formats).",
-            "Eval vm_compute in gen_cfg."]), timeout=120)
+            "Eval vm_compute in gen_cfg.", "Eval vm_compute in gen_cw_copies_noncontig."]), timeout=120)
         vals = vlib.parse_eval(out)
-        sound_cfg = sound_fmts = None
-        if rc != 0 or len(vals) < 2:
+        sound_cfg = sound_fmts = copies = None
+        if rc != 0 or len(vals) < 3:
             R.red.append("correspondence: Corr/c04_status did not evaluate: " + out[-300:])
         else:
             m = re.match(r"\((true|false), \[(.*)\]\)", vals[0])
@@ -731,7 +761,9 @@ def run(R: vlib.Run):
                 sound_cfg = m.group(1) == "true"
                 sound_fmts = dict(zip(("tim", "dat", "spec", "fft"), [x.strip() == "true" for x in m.group(2).split(";")]))
             R.notes.append(f"regenerated configuration: {vals[1]}; sound_cfg={sound_cfg}; header written iff skipped: {sound_fmts}")
-            R.extra_cov["verdict_branches"] = {"cwrite": "property" if sound_cfg else "refuted",
+            copies = vals[2].strip().startswith("true")
+            R.notes.append(f"cwrite copies a non-contiguous / read-only array in front of pack: {copies}")
+            R.extra_cov["verdict_branches"] = {"cwrite": "property" if sound_cfg else "refuted", "layout": "property" if copies else "refuted",
                                                **{k: ("property" if v else "refuted") for k, v in (sound_fmts or {}).items()}}
 
         # (b) cwrite bytes
@@ -753,11 +785,33 @@ def run(R: vlib.Run):
                 nb, dt, v, o = sh[bi]
                 R.disagree("cwrite: bytes written by the implementation differ from the model", {"nbits": nb, "dtype": dt, "values": small(v), "impl_bytes": o if o is None else o[:32]})
 
+        # (b') cwrite on strided / read-only views
+        if corr_v:
+            lines = head + ["Definition cases : list (Z * dtype * list Z * Z * Z * Z * bool * option (list Z)) := ["]
+            lines.append(";\n".join(f"({nb}, {COQ_DT[dt]}, {ivals(buf)}, {off}, {step}, {n}, {'true' if wr else 'false'}, {opt(o)})"
+                                    for nb, dt, buf, off, step, n, wr, o in corr_v))
+            lines += ["].", "Definition ok (c : Z * dtype * list Z * Z * Z * Z * bool * option (list Z)) : bool :=",
+                      "  let '(nb, dt, buf, off, st, n, wr, o) := c in oeqb (cwrite_view gen_cw_copies_noncontig gen_cfg nb (mkview dt buf off st n wr)) o.",
+                      "Eval vm_compute in (length cases, bad ok cases)."]
+            rc, out = vlib.coq_run("c04_v", "\n".join(lines), timeout=300)
+            pv = vlib.parse_eval(out)
+            if rc != 0 or not pv:
+                R.red.append("correspondence: Corr/c04_v did not evaluate: " + out[-300:])
+            else:
+                idx = [int(x) for x in re.findall(r"(\d+)%nat", pv[0])]
+                ncorr += idx[0] if idx else 0
+                for bi in idx[1:6]:
+                    nb, dt, buf, off, step, n, wr, o = corr_v[bi]
+                    R.disagree("cwrite on a strided / read-only view: bytes written by the implementation differ from the model",
+                               {"nbits": nb, "dtype": dt, "buffer": small(buf), "offset": off, "step": step, "n": n, "writeable": wr,
+                                "impl_bytes": o if o is None else o[:32]})
+
         # (c) whole product + re-read
         fcases = []
-        for nb, nch, dt, v, path, refused in corr_f:
+        for nb, nch, dt, v, path, refused, cut, plain in corr_f:
+            v = [v[:cut], v[cut:]] if cut else [v]
             if refused is not None:
-                fcases.append((nb, nch, dt, v, [], None)); continue
+                fcases.append((nb, nch, dt, v, [], None, plain)); continue
             raw = open(path, "rb").read()
             hl = hdrlen_of(path)
             try:
@@ -767,16 +821,17 @@ def run(R: vlib.Run):
             except Exception:  # noqa: BLE001
                 ns, back = -1, None
             rv = None if back is None or not is_intlike(back) else [int(x) for x in back]
-            fcases.append((nb, nch, dt, v, list(raw[:hl]), (list(raw), ns, rv)))
+            fcases.append((nb, nch, dt, v, list(raw[:hl]), (list(raw), ns, rv), plain))
         for i in range(0, len(fcases), 150):
             sh = fcases[i:i + 150]
-            lines = head + ["Definition cases : list (Z * Z * dtype * list Z * list Z * option (list Z * Z * option (list Z))) := ["]
+            lines = head + ["Definition cases : list (Z * Z * dtype * list (list Z) * list Z * option (list Z * Z * option (list Z)) * bool) := ["]
             lines.append(";\n".join(
-                f"({nb}, {nch}, {COQ_DT[dt]}, {ivals(v)}, {vlib.zlist(h)}, " +
-                ("None" if o is None else f"(Some ({vlib.zlist(o[0])}, {o[1]}, {opt(o[2])}))") + ")" for nb, nch, dt, v, h, o in sh))
-            lines += ["].", "Definition ok (c : Z * Z * dtype * list Z * list Z * option (list Z * Z * option (list Z))) : bool :=",
-                      "  let '(nb, nch, dt, v, h, o) := c in",
-                      "  match write_fil gen_cfg nb h (mknd dt v), o with",
+                f"({nb}, {nch}, {COQ_DT[dt]}, [{'; '.join(ivals(x) for x in v)}], {vlib.zlist(h)}, " +
+                ("None" if o is None else f"(Some ({vlib.zlist(o[0])}, {o[1]}, {opt(o[2])}))") + f", {'true' if plain else 'false'})" for nb, nch, dt, v, h, o, plain in sh))
+            lines += ["].", "Definition ok (c : Z * Z * dtype * list (list Z) * list Z * option (list Z * Z * option (list Z)) * bool) : bool :=",
+                      "  let '(nb, nch, dt, v, h, o, plain) := c in",
+                      "  (* a strided / read-only array at a packed depth: refused unless cwrite copies it (cwrite_view) *)",
+                      "  match (if negb plain && bit_unpack nb && negb gen_cw_copies_noncontig then None else write_fil_many gen_cfg nb h (map (mknd dt) v)), o with",
                       "  | None, None => true",
                       "  | Some f, Some (fb, ns, rv) => list_eqb (raw f) fb &&",
                       "      match rv with None => true | Some l =>",
@@ -790,9 +845,9 @@ def run(R: vlib.Run):
             idx = [int(x) for x in re.findall(r"(\d+)%nat", pv[0])]
             ncorr += idx[0] if idx else 0
             for bi in idx[1:6]:
-                nb, nch, dt, v, h, o = sh[bi]
+                nb, nch, dt, v, h, o, plain = sh[bi]
                 R.disagree("prep_outfile+cwrite+FilReader: product file / re-read values differ from the model",
-                           {"nbits": nb, "nchans": nch, "dtype": dt, "values": small(v), "impl": None if o is None else {"file_tail": o[0][len(h):][:32], "nsamples": o[1], "read": o[2] if o[2] is None else o[2][:24]}})
+                           {"nbits": nb, "nchans": nch, "dtype": dt, "values_per_call": [small(x) for x in v], "impl": None if o is None else {"file_tail": o[0][len(h):][:32], "nsamples": o[1], "read": o[2] if o[2] is None else o[2][:24]}})
 
         # (d) series products
         scases = []
@@ -838,10 +893,14 @@ def run(R: vlib.Run):
                     fmt, v, h, hl, raw, cnt, rv = scases[bi]
                     R.disagree("series product / re-read differs from the model", {"format": fmt, "values": v[:16], "hdrlen": hl, "product_len": len(raw), "read_count": cnt})
         R.extra_cov["correspondence_cases"] = ncorr
+        R.extra_cov["correspondence_two_call_products"] = sum(1 for c in corr_f if c[6])
+        R.extra_cov["correspondence_view_cases"] = len(corr_v)
         R.extra_cov["traces_validated_against_impl"] = ncorr
         R.extra_cov["oracle_keys_fired"] = sorted(fired)
 
         # the proof side took a refuted branch: the oracle must have exhibited the matching failing input
+        if copies is False and "cwrite-refused-own-type" not in fired:
+            R.red.append("verdict: the regenerated cwrite does not copy a strided / read-only array in front of pack (LayoutRefuted) but the oracle found no refused array")
         if sound_cfg is False and not (fired & {"cwrite-width", "fil-nsamples", "fil-values"}):
             R.red.append("verdict: the regenerated cwrite is refuted by the model but the oracle found no failing input")
         for k, v in (sound_fmts or {}).items():
